@@ -47,6 +47,7 @@ def step (line : String) : String :=
   | "fr" :: rest => VC2.Model.Picture.handleFr rest
   | "sl" :: rest => VC2.Model.SliceFit.handleSl rest
   | "so" :: rest => VC2.Model.SeqHeader.handleSo rest
+  | "pg" :: rest => VC2.Model.Picture.handlePg rest
   | "dc" :: rest => VC2.Model.Picture.handleDc rest
   | "ff" :: rest => VC2.Model.FileFormat.handleFf rest
   | "vs" :: rest => VC2.Model.Constraint.handleVs rest
